@@ -73,16 +73,17 @@ def run(ctx):
             out = j.rejection_sample(pb.data, pb.lib, in_memory=True)
             tags = np.searchsorted(pb.tagP, np.asarray(out["P"].to_value("d")))
             hits[tags] += 1
-        var = runs * p * (1 - p)
-        zs = np.where(var > 0, (hits - runs * p) / np.sqrt(np.maximum(var, 1e-300)), 0.0)
-        exact = np.where(var == 0, hits == runs * p, True)
+        # exact binomial tails (a normal approximation is wrong for rows with runs * p << 1: one hit at p = 1e-4 is "6 sigma")
+        from scipy import stats as _st
+        tail = np.minimum(_st.binom.cdf(hits, runs, p), _st.binom.sf(hits - 1, runs, p))
         ctx.counters["frequency_runs"] = runs
-        ctx.maxi("frequency_abs_z", float(np.max(np.abs(zs))))
+        ctx.maxi("frequency_neglog10_tail", float(-np.log10(max(np.min(tail), 1e-300))))
         ctx.evaluations += 1
         ctx.distinct.add("frequency-test")
-        if np.max(np.abs(zs)) > 6.1 or not np.all(exact):
-            ctx.violation("acceptance-frequency", "acceptance frequencies deviate from L_i/L_max: max |z| = %.2f"
-                          % np.max(np.abs(zs)), dict(p=p, hits=hits, runs=runs))
+        if np.min(tail) < 1e-9:
+            k_ = int(np.argmin(tail))
+            ctx.violation("acceptance-frequency", "acceptance frequencies deviate from L_i/L_max: row %d accepted %d times in %d runs "
+                          "at p = %.4g (binomial tail %.2g)" % (k_, hits[k_], runs, p[k_], tail[k_]), dict(p=p, hits=hits, runs=runs))
 
     # a monitor that could not recognise the recorded draw pattern has not judged that session: if that happens often the
     # verdict is "inconclusive", never "held"
